@@ -125,6 +125,8 @@ class Sim:
         root.handlers[:] = [self._handler]
         root.setLevel(logging.WARNING)
         logging.raiseExceptions = False
+        import warnings
+        warnings.simplefilter("ignore")
         gc.disable()
 
     def uninstall(self):
